@@ -163,6 +163,20 @@ def main():
     fmt, args = struct_call(body[0].value.left, "pack")
     types = {f: "Z" for f in HEADER_FIELDS}
     types["reply_expected"] = "bool"
+    # are the port / core operands reduced with int(...) before masking and shifting?  (all four, or none)
+    coerced = {}
+    for a in args:
+        inside = set()
+        for n in ast.walk(a):
+            if isinstance(n, ast.Call) and is_name(n.func, "int") and len(n.args) == 1 and not n.keywords \
+                    and is_attr(n.args[0], "self"):
+                inside.add(id(n.args[0]))
+        for n in ast.walk(a):
+            if is_attr(n, "self") and n.attr in ("dest_port", "dest_cpu", "src_port", "src_cpu"):
+                need(n.attr not in coerced, n, "each port / core field used once")
+                coerced[n.attr] = id(n) in inside
+    need(len(coerced) == 4 and len(set(coerced.values())) == 1, sdp,
+         "the four port / core operands are all int(...)-coerced or none is")
     vals = []
     for a in args:
         v, t = zexpr(a, "self", HEADER_FIELDS, types, consts)
@@ -171,6 +185,8 @@ def main():
     out.append("(* SDPPacket.bytestring, line %d: struct.pack(sdp_header_fmt, *sdp_header_values) "
                "+ self.packed_data *)" % sdp.lineno)
     out.append(dumplib.definition("sdp_header_fmt", "string", dumplib.string(fmt)))
+    out.append("(* the port and core operands are written int(self.<field>) in the source: %s *)" % coerced["dest_port"])
+    out.append(dumplib.definition("sdp_port_operands_coerced", "bool", "true" if coerced["dest_port"] else "false"))
     out.append("Definition sdp_header_values (reply_expected : bool) (%s : Z) : list Z :=\n  [%s].\n"
                % (" ".join(HEADER_FIELDS[1:]), ";\n   ".join(vals)))
 
